@@ -3,10 +3,22 @@ CHECKS = {
    text="Sound-for-the-clause static argument: no mutable/interior-mutable static, no nondeterminism source, no uninitialised-memory primitive outside reviewed rows, no pointer-to-integer cast and no thread/lock primitive is reachable from the public API in the instantiation-aware call graph; unsafe is confined to the FFI shims and derive expansions. A safe-Rust function with these premises is a pure function of its arguments, for every schedule and process.",
    note="Trusted: rustc's type system and MIR, std/core/alloc, the C part of zstd, names of MIR-less std leaves. Facts come from nightly rustc 1.97 at opt-level 0.",
    design_ref="DESIGN.md §4 C14"),
+ "C12": dict(category="proof", technique="static analysis: dominator and value-flow (provenance) rules on the MIR of the extern \"C\" shims and their catch_unwind closures",
+   text="Sound for the stated clauses under Rust slice semantics: the whole body is under catch_unwind (no assertion or call outside it), status 0 only on Ok(Ok) and other statuses negative, caller pointers reach only slice::from_raw_parts(_mut) paired with their own length plus the single *result_size store, the mutable slice over the caller's buffer flows only into bounds-checked writers, the store dominates every Ok and its value is the writer's own count, no Result is discarded, the intermediate capacity constant is >= 128 MiB, exact C signature. The round-trip clause is not decided here (reduces to C01).",
+   note="Trusted: Rust slice semantics, zstd-safe honouring dst.len(), Cursor<&mut [u8]> never advancing past its slice, catch_unwind catching unwinding panics, drop of the panic payload not panicking.",
+   design_ref="DESIGN.md §4 C12"),
+ "C11": dict(category="other", technique="static analysis: value-flow (argument origin) and error-propagation classification on the MIR of compress_zstd/decompress_zstd",
+   text="Decides the wrapper's own obligations: `capacity` and the caller's bytes reach zstd's bounded decompress unchanged, every Result is consumed by `?`, Ok is returned only behind the success edge of the full reconstruction and carries the vector reconstruction wrote to; symmetric flow facts for compress_zstd. A necessary condition of the property for every input and capacity; zstd's own behaviour is trusted and the round trip is C01's.",
+   note="Trusted: zstd::bulk::decompress errs when the output exceeds capacity or the input is not a frame.",
+   design_ref="DESIGN.md §4 C11"),
+ "C13": dict(category="other", technique="static analysis: who-may-call table over the generic I/O functions, error-propagation classification, must-pass-through (dominator) ordering rule",
+   text="For every fragmentation and every error point at once: the only count-returning I/O call on the caller's objects is the one-byte EOF probe compared with 0, all other transfers are read_exact/read_u8/write_all, no Result on the path is unwrapped, dropped or defaulted and no explicit panic construct exists there, and within a chunk the destination is touched only behind the success edge of that chunk's reconstruction. Necessary conditions; that the bytes themselves are right is C01/C02.",
+   note="Trusted: std's read_exact/write_all contracts. Scope = generic functions reachable from recreated_zlib_chunks that take the Read/Write parameters (cross-checked against the mono graph).",
+   design_ref="DESIGN.md §4 C13"),
 }
 _PENDING = "static rule set designed in DESIGN.md §4 but not implemented yet in this round; not claimed until its check runs"
 NA = {
  "C09": "aggregate modelling quality relative to another build over an input distribution; no clause of it is visible in the shape of the code (every candidate structural rule would also fire on edits that improve modelling) — declined for static analysis, see DESIGN.md §4 C09",
 }
-for _p in ["C01","C02","C03","C04","C05","C06","C07","C08","C10","C11","C12","C13"]:
+for _p in ["C01","C02","C03","C04","C05","C06","C07","C08","C10"]:
     NA[_p] = _PENDING
